@@ -1027,6 +1027,7 @@ struct Solver {
     script: String,
     cmd: Vec<String>,
     inc_timeout_ms: u64,
+    seq: u64,
 }
 
 impl Solver {
@@ -1048,7 +1049,7 @@ impl Solver {
                 .unwrap()
         });
         let is_z3 = cmd[0].contains("z3");
-        let mut s = Solver { child, stdin, stdout, tdef: vec![], bdef: vec![], log, is_z3, timeout_ms, abs, real, script: String::new(), cmd: cmd.to_vec(), inc_timeout_ms };
+        let mut s = Solver { child, stdin, stdout, tdef: vec![], bdef: vec![], log, is_z3, timeout_ms, abs, real, script: String::new(), cmd: cmd.to_vec(), inc_timeout_ms, seq: 0 };
         s.prelude();
         s
     }
@@ -1063,7 +1064,8 @@ impl Solver {
         if let Some(l) = self.log.as_mut() {
             let _ = l.write_all(s.as_bytes());
         }
-        self.stdin.write_all(s.as_bytes()).expect("solver pipe closed");
+        // a dead solver shows up as "eof" at the next read and is restarted there
+        let _ = self.stdin.write_all(s.as_bytes());
     }
     fn reset(&mut self) {
         self.send("(reset)\n");
@@ -1253,65 +1255,102 @@ impl Solver {
             }
         }
     }
-    /// is `pc ∧ extra` satisfiable?  (definitions are emitted outside the push scope)
-    fn check(&mut self, ar: &Arena, extra: Option<Bm>, want_model: Option<&mut Vec<(String, String)>>) -> Sat {
-        let mut out = String::new();
-        if let Some(b) = extra {
-            self.define_b(ar, b, &mut out);
-            self.script.push_str(&out);
-            out.push_str(&format!("(push 1)\n(assert {})\n", Self::bref(ar, b)));
-        } else {
-            out.push_str("(push 1)\n");
+    /// read answer lines up to the echo marker; an `(error` line makes the answer unusable
+    fn read_until(&mut self, marker: &str) -> (Vec<String>, bool) {
+        let mut lines = vec![];
+        let mut err = false;
+        loop {
+            let l = self.read_line();
+            if l.trim_matches('"') == marker {
+                break;
+            }
+            if l == "eof" {
+                err = true;
+                break;
+            }
+            if l.starts_with("(error") {
+                err = true;
+                if std::env::var("SYMX_SHOW_SOLVER_ERRORS").is_ok() {
+                    eprintln!("symx: solver said {:?}", l);
+                }
+            }
+            lines.push(l);
         }
-        out.push_str("(check-sat)\n");
+        (lines, err)
+    }
+
+    /// kill the process and start a fresh one with everything asserted so far
+    fn respawn(&mut self) {
+        let _ = self.child.kill();
+        let _ = self.child.wait();
+        let mut child = Command::new(&self.cmd[0])
+            .args(&self.cmd[1..])
+            .stdin(Stdio::piped())
+            .stdout(Stdio::piped())
+            .stderr(Stdio::null())
+            .spawn()
+            .unwrap_or_else(|e| panic!("cannot restart solver {:?}: {}", self.cmd, e));
+        self.stdin = child.stdin.take().unwrap();
+        self.stdout = BufReader::new(child.stdout.take().unwrap());
+        self.child = child;
+        self.prelude();
+        let sc = self.script.clone();
+        self.send(&sc);
+    }
+
+    /// is `pc ∧ extra` satisfiable?  `check-sat-assuming` on the literal: no push/pop, nothing can leak
+    /// into the path condition; every exchange ends with an echo marker so that an error line (e.g. a
+    /// command cancelled by the time limit) can never shift answers between queries
+    fn check(&mut self, ar: &Arena, extra: Option<Bm>, want_model: Option<&mut Vec<(String, String)>>) -> Sat {
+        self.seq += 1;
+        let marker = format!("@@{}", self.seq);
+        let mut out = String::new();
+        let lit = match extra {
+            Some(b) => match ar.bval(b) {
+                Some(false) => return Sat::Unsat,
+                Some(true) => None,
+                None => {
+                    self.define_b(ar, b, &mut out);
+                    self.script.push_str(&out);
+                    Some(Self::bref(ar, b))
+                }
+            },
+            None => None,
+        };
+        match &lit {
+            Some(l) => out.push_str(&format!("(check-sat-assuming ({}))\n", l)),
+            None => out.push_str("(check-sat)\n"),
+        }
+        out.push_str(&format!("(echo \"{}\")\n", marker));
         self.send(&out);
         let _ = self.stdin.flush();
-        let ans = self.read_line();
-        let r = match ans.as_str() {
-            "sat" => Sat::Sat,
-            "unsat" => Sat::Unsat,
-            "unknown" | "timeout" => Sat::Unknown,
-            other => {
-                if other.starts_with("(error") || other == "eof" {
-                    eprintln!("symx: solver said {:?}", other);
-                }
-                Sat::Unknown
-            }
+        let (lines, err) = self.read_until(&marker);
+        if err {
+            self.respawn();
+            return Sat::Unknown;
+        }
+        let r = match lines.first().map(|s| s.as_str()) {
+            Some("sat") => Sat::Sat,
+            Some("unsat") => Sat::Unsat,
+            _ => Sat::Unknown,
         };
         if r == Sat::Sat {
             if let Some(m) = want_model {
                 if !ar.vars.is_empty() {
+                    self.seq += 1;
+                    let marker = format!("@@{}", self.seq);
                     let names: Vec<String> = ar.vars.iter().map(|v| format!("v_{}", v.name)).collect();
-                    self.send(&format!("(get-value ({}))\n", names.join(" ")));
+                    self.send(&format!("(get-value ({}))\n(echo \"{}\")\n", names.join(" "), marker));
                     let _ = self.stdin.flush();
-                    // read until parentheses balance
-                    let mut buf = String::new();
-                    let mut depth: i64 = 0;
-                    let mut started = false;
-                    loop {
-                        let l = self.read_line();
-                        for ch in l.chars() {
-                            if ch == '(' {
-                                depth += 1;
-                                started = true;
-                            } else if ch == ')' {
-                                depth -= 1;
-                            }
-                        }
-                        buf.push_str(&l);
-                        buf.push(' ');
-                        if started && depth <= 0 {
-                            break;
-                        }
-                        if l == "eof" {
-                            break;
-                        }
+                    let (lines, err) = self.read_until(&marker);
+                    if err {
+                        self.respawn();
+                        return Sat::Unknown;
                     }
-                    *m = parse_model(&buf);
+                    *m = parse_model(&lines.join(" "));
                 }
             }
         }
-        self.send("(pop 1)\n");
         r
     }
 }
